@@ -1093,6 +1093,7 @@ class Engine:
         self.mt = None              # multi-thread event mode (irsym_mt)
         self.inputs = None          # concrete replay: name -> list of values (vs_* return them instead of fresh symbols)
         self.inpos = {}
+        query_timeout_ms = int(os.environ.get('VERIF_QUERY_TIMEOUT_MS', query_timeout_ms))
         if int_mode:
             import irsym_int
             self.solver = irsym_int.IntSolver(query_timeout_ms)
@@ -2070,6 +2071,22 @@ def x_strcpy(eng, st, a):
     return a[0]
 
 
+@ext('strncpy')
+def x_strncpy(eng, st, a):
+    n = _len(eng, st, a[2], 'strncpy count')
+    cells = []
+    for i in range(n):
+        c = eng.mem_read(st, a[1] + i, 1)[0]
+        if isinstance(c, int):
+            if c == 0:
+                break
+        elif eng.decide(st, _cell_expr(c) == 0):
+            break
+        cells.append(c)
+    eng.mem_write(st, a[0], cells + [0] * (n - len(cells)))
+    return a[0]
+
+
 @ext('strcat')
 def x_strcat(eng, st, a):
     n = len(eng.read_cstr(st, a[0]))
@@ -2141,15 +2158,89 @@ EXTERNALS['isprint'] = _ctype(lambda k: 32 <= k <= 126)
 EXTERNALS['isxdigit'] = _ctype(lambda k: 48 <= k <= 57 or 65 <= k <= 70 or 97 <= k <= 102)
 
 
+# ---- strtol family ([C] 7.22.1.4, base 10 / 0 with decimal input only), errno
+@ext('__errno_location')
+def x_errno_location(eng, st, a):
+    o = st.ext.get('errno_obj')
+    if o is None:
+        o = st.alloc(4, 'global', 'errno', fill=0).base; st.ext['errno_obj'] = o
+    return o
+
+
+def _strto(signed):
+    def f(eng, st, a):
+        p = a[0]; base = a[2]
+        if type(base) is not int or base not in (0, 10):
+            raise EngineError('strtol: base %r not modelled' % (base,))
+
+        def ch(i):
+            return _cell_expr(eng.mem_read(st, p + i, 1)[0])
+
+        def test(e):
+            return bool(e) if isinstance(e, (int, bool)) else eng.decide(st, e)
+        i = 0
+        while True:
+            c = ch(i)
+            if test((c == 32) if isinstance(c, int) else z3.Or(c == 32, z3.And(z3.UGE(c, 9), z3.ULE(c, 13)))) or (isinstance(c, int) and 9 <= c <= 13):
+                i += 1; continue
+            break
+        neg = False
+        c = ch(i)
+        if test(c == 45):
+            neg = True; i += 1
+        elif test(c == 43):
+            i += 1
+        acc = 0; nd = 0
+        while nd < 40:
+            c = ch(i)
+            isd = (48 <= c <= 57) if isinstance(c, int) else z3.And(z3.UGE(c, 48), z3.ULE(c, 57))
+            if not test(isd):
+                break
+            d = c - 48 if isinstance(c, int) else z3.ZeroExt(120, c - 48)
+            acc = acc * 10 + d if isinstance(acc, int) and isinstance(d, int) else (bvv(acc, 128) if isinstance(acc, int) else acc) * 10 + (bvv(d, 128) if isinstance(d, int) else d)
+            i += 1; nd += 1
+        if nd == 0:
+            if type(a[1]) is not int or a[1]:
+                eng.mem_write(st, a[1], int_cells(p, 8))
+            return 0
+        if type(a[1]) is not int or a[1]:
+            eng.mem_write(st, a[1], int_cells(p + i, 8))
+        limit = ((1 << 63) if neg else (1 << 63) - 1) if signed else (1 << 64) - 1
+        over = (acc > limit) if isinstance(acc, int) else z3.UGT(acc, bvv(limit, 128))
+        if test(over):
+            eng.mem_write(st, x_errno_location(eng, st, []), int_cells(34, 4))          # ERANGE
+            return (((1 << 63) if neg else (1 << 63) - 1) if signed else (1 << 64) - 1)
+        if isinstance(acc, int):
+            return (-acc if neg else acc) & ((1 << 64) - 1)
+        v = z3.Extract(63, 0, acc)
+        if not neg:
+            return simp(v)
+        # the negated value as a fresh term tied to the digits by one equation (negating the digit sum itself would
+        # distribute the negation over every digit term)
+        eng.nsym += 1
+        r = z3.BitVec('strtol!neg!%d' % eng.nsym, 64)
+        eng.assume(st, v == 0 - r)
+        return r
+    return f
+
+
+EXTERNALS['strtol'] = _strto(True); EXTERNALS['strtoll'] = _strto(True); EXTERNALS['strtoul'] = _strto(False); EXTERNALS['strtoull'] = _strto(False)
+EXTERNALS['__isoc23_strtol'] = _strto(True); EXTERNALS['__isoc23_strtoul'] = _strto(False); EXTERNALS['__isoc23_strtoll'] = _strto(True); EXTERNALS['__isoc23_strtoull'] = _strto(False)
+
+
 @ext('tolower')
 def x_tolower(eng, st, a):
-    c = _len(eng, st, a[0], 'tolower argument', )
+    c = a[0]
+    if type(c) is not int:          # "C" locale, decided symbolically
+        return simp(z3.If(z3.And(z3.UGE(c, 65), z3.ULE(c, 90)), c + 32, c))
     return c + 32 if 65 <= c <= 90 else c
 
 
 @ext('toupper')
 def x_toupper(eng, st, a):
-    c = _len(eng, st, a[0], 'toupper argument')
+    c = a[0]
+    if type(c) is not int:
+        return simp(z3.If(z3.And(z3.UGE(c, 97), z3.ULE(c, 122)), c - 32, c))
     return c - 32 if 97 <= c <= 122 else c
 
 
